@@ -29,6 +29,8 @@ def rel_kinds(prefixes, ktest):
     def rel(tag, kinds):
         if tag in ("R", "C", "CR", "RG"):
             return any(ktest(k) for k in kinds)
+        if tag == "Q":   # "Q": every query answer; "Q:": the answers to queries of a relevant kind (wrk.block, str.stream, …)
+            return "Q" in prefixes or ("Q:" in prefixes and any(ktest(k) for k in kinds))
         return any(tag == p or tag.startswith(p) for p in prefixes)
     return rel
 
@@ -43,7 +45,7 @@ def is_reg(k):
     return k.startswith(("wrk.", "bcn."))
 
 
-REG_TAGS = ("I", "K", "B", "E", "D wrk.", "D bcn.")
+REG_TAGS = ("I", "K", "B", "E", "D wrk.", "D bcn.", "Q:")
 REG_NOTE = ("Theorems are about the Lean model of x/wrkchain and x/beacon (one generic registry machine) lifted to every reachable state of the whole "
             "application model (all message kinds, authz nesting of any depth, ante effects, block hooks) under the explicit history assumption "
             "RegQ (no 64-bit counter has wrapped). The tie to the code is differential: the real app driven through ABCI vs. the compiled model on "
@@ -118,7 +120,7 @@ PROPS = {
         "chain": [chain("query", 32, 20, 400, 35)],
         "corpus": ["witness", "regress", "known"],
         "relevant": rel_kinds(("I", "K", "B", "E", "Q"), lambda k: True),
-        "level_text": "Proof: c20_pages_partition_by_key (for every store section, filter and limit 1 <= L < 2^64, following next_key from a first request without key returns every matching entry exactly once, in store order, and nothing else: unbounded in the number of entries and pages), c20_pages_partition_by_offset (+ drop_take_partition), c20_key_and_offset_rejected, c20_purchase_orders_walk (instance for EnterpriseUndPurchaseOrders in every reachable state), c20_listed_*_eq_point_query, c20_queries_do_not_modify_state.",
+        "level_text": "Proof: c20_pages_partition_by_key (for every store section, filter and limit 1 <= L < 2^64, following next_key from a first request without key returns every matching entry exactly once, in store order, and nothing else: unbounded in the number of entries and pages), c20_pages_partition_by_offset (+ drop_take_partition), c20_key_and_offset_rejected, c20_pages_partition_by_key_reverse (the same for reverse walks), c20_purchase_orders_walk, c20_wrkchains_walk, c20_beacons_walk, c20_streams_walk (also the by-sender list), c20_streams_by_receiver_walk (instances for every list query in every reachable state; the stream lists for addresses of any byte lengths), c20_listed_*_eq_point_query, c20_queries_do_not_modify_state.",
         "level_note": "Theorems are about Paginate.filtered, the transcription of the SDK's FilteredPaginate / GenericFilteredPaginate / Paginate (types/query, v0.47.13: trusted transcription, validated by the correspondence), and about the list queries of the four modules built on it (Model/Query.lean). The tie is differential: every list query of the real app through ABCI Query (gRPC route) with generated page requests - complete key walks, offset walks, count_total, reverse, key+offset, absent and upper-case filters - vs. the compiled model, after every block; the harness also compares every listed item with its point query (pm must be 0). Store iteration order (ascending bytes) is the IAVL contract and is assumed; reverse iteration is covered by the correspondence only.",
         "assumptions": ["store iteration is ascending byte order (IAVL contract)", "address bytes are 20 bytes and distinct per address (stream and whitelist sections)", "EntQ for the purchase-order instance"],
     },
@@ -132,7 +134,7 @@ PROPS = {
                         "enterprise denomination is a valid denom (C16)"],
     },
     "C13": {
-        "chain": [chain("signer", 32, 25, 400, 40), chain("authz", 16, 20, 200, 30), chain("all", 16, 25, 200, 40), chain("gov", 8, 20, 100, 30)],
+        "chain": [chain("signer", 32, 25, 400, 40), chain("authz", 16, 20, 200, 30), chain("all", 16, 25, 200, 40), chain("gov", 8, 20, 100, 30), chain("genesis", 8, 25, 60, 30)],
         "corpus": ["witness", "regress", "known"],
         "relevant": rel_all,
         "level_text": "Proof: c13_effect_requires_entitled_signer (for each of the message types a handler succeeds only if the account in the message's signer field is the entitled party: whitelisted purchaser, current enterprise signer, registered owner, stream sender / receiver, gov authority), c13_signer_fields (GetSigners table regenerated from the source), c13_tx_binds_signers (the composed ante chain admits a transaction only with exactly the GetSigners of its top-level messages as valid signatures), c13_nested_requires_grant_from_signer, c13_executed_messages_are_signed (every executed message of every run is signed by a key holder or the gov module), c13_params_only_by_governance.",
@@ -201,7 +203,7 @@ PROPS = {
         "assumptions": ["RateQ as in C11", "Small: every balance below 2^255 (2^254 for cancel) so that the bank's 256-bit integers cannot overflow"],
     },
     "C07": {
-        "chain": [chain("reg", 24, 25, 300, 40), chain("all", 16, 25, 200, 40), chain("authz", 8, 20, 100, 30)],
+        "chain": [chain("reg", 24, 25, 300, 40), chain("all", 16, 25, 200, 40), chain("authz", 8, 20, 100, 30), chain("query", 8, 20, 60, 30)],
         "corpus": ["witness", "regress"],
         "relevant": rel_kinds(REG_TAGS, is_reg),
         "level_text": "Proof: c07_records_immutable (a stored record is returned unchanged or pruned in every later state of every run, never overwritten, never back), c07_no_backfill, c07_wrk_record_accepts_only_higher, c07_bcn_ids_consecutive (+ first id is 1), c07_rejected_tx_changes_nothing; all unbounded in the number and interleaving of operations.",
@@ -217,7 +219,7 @@ PROPS = {
         "assumptions": ["RegQ: no 64-bit counter has wrapped", "purchased slot count is a uint64 (< 2^64) for the 'by exactly n' clause"],
     },
     "C09": {
-        "chain": [chain("reg", 24, 25, 300, 40), chain("signer", 16, 20, 200, 30), chain("all", 16, 25, 200, 40)],
+        "chain": [chain("reg", 24, 25, 300, 40), chain("signer", 16, 20, 200, 30), chain("all", 16, 25, 200, 40), chain("genesis", 8, 25, 60, 30)],
         "corpus": ["witness", "regress"],
         "relevant": rel_kinds(REG_TAGS, is_reg),
         "level_text": "Proof: c09_ids_sequential_and_fields_verbatim, c09_first_id_is_genesis_start, c09_ids_never_reused, c09_registration_frozen (id/owner/moniker/name/type/genesis/regtime identical in every later state of every run), c09_only_owner_writes, c09_unknown_or_foreign_rejected.",
